@@ -998,6 +998,9 @@ func C15(run *report.Run) {
 		}
 		wideC15(run, acc, 5, 4)
 		wideC15(run, acc, 4, 16)
+		ruler := []uint8{0, 1, 0, 2, 0, 1, 0, 3, 0, 1, 0, 2, 0, 1, 0}
+		wideC15With(run, acc, 1, 2, ruler, 5)
+		wideC15With(run, acc, 3, 2, ruler, 5)
 		acc.flush(run)
 	}
 	runVersionPairsSerial(run, "C15", versionConfigs(run.Thorough()), checkDiffCost)
@@ -1192,13 +1195,21 @@ func onlyRootsOfCommonSubtrees(cfg *world.Config, o, n *version, loaded map[stri
 // one of the two separators (2^k versions, one top node each, all leaves common to all versions). Every ordered
 // pair. This is where a top node differs in many keys while everything below it is shared.
 func wideC15(run *report.Run, acc *pairAcc, k int, bf uint) {
+	wideC15With(run, acc, k, bf, []uint8{0, 0}, 1)
+}
+
+// wideC15With: the same with a whole subtree (keys with the given layers) in the place of each leaf and
+// separators of layer sepLayer: the common parts are tall, the node that differs sits above them.
+func wideC15With(run *report.Run, acc *pairAcc, k int, bf uint, leaf []uint8, sepLayer uint8) {
+	g := len(leaf) + 2
 	var layers []uint8
 	for p := 0; p < k; p++ {
-		layers = append(layers, 0, 0, 1, 1)
+		layers = append(layers, leaf...)
+		layers = append(layers, sepLayer, sepLayer)
 	}
-	layers = append(layers, 0, 0)
+	layers = append(layers, leaf...)
 	cfg := world.LKeyCfg(bf, layers, 1, ref.FormatBinary, "none")
-	cfg.Name = fmt.Sprintf("wide-node/%d separator positions/bf%d", k, bf)
+	cfg.Name = fmt.Sprintf("wide-node/%d separator positions of layer %d over common subtrees of %d keys/bf%d", k, sepLayer, len(leaf), bf)
 	w, err := world.New(cfg)
 	if err != nil {
 		run.HarnessError("wide: %v", err)
@@ -1220,10 +1231,11 @@ func wideC15(run *report.Run, acc *pairAcc, k int, bf uint) {
 			}
 		}
 		for p := 0; p <= k; p++ {
-			ins(4 * p)
-			ins(4*p + 1)
+			for q := range leaf {
+				ins(g*p + q)
+			}
 			if p < k {
-				ins(4*p + 2 + (mask >> p & 1))
+				ins(g*p + len(leaf) + (mask >> p & 1))
 			}
 		}
 		var root *mast.Root
